@@ -125,6 +125,16 @@ def removeS (h : Heap) (s : Slice) (v : String) : Heap × Slice :=
     let a' := l.eraseIdx i ++ a.drop (s.len - 1)
     (h.set s.arr a', ⟨s.arr, s.len - 1⟩)
 
+/-- webclient.go `remove` after the repair "remove every occurrence" (391656f): the old step
+`append(l[:i], l[i+1:]...)` on the first occurrence, repeated on the shrinking slice until none is
+left.  `removeS` is the identity once `v` no longer occurs, so `n` iterations with `n` at least the
+number of occurrences are the loop; `removeAllS` takes `n = s.len`. -/
+def removeAllN : Nat → Heap → Slice → String → Heap × Slice
+  | 0, h, s, _ => (h, s)
+  | n + 1, h, s, v => removeAllN n (removeS h s v).1 (removeS h s v).2 v
+
+def removeAllS (h : Heap) (s : Slice) (v : String) : Heap × Slice := removeAllN s.len h s v
+
 /-- Go's `growslice` for a []string whose length equals its capacity and one
 element appended (sizes small enough that the size classes are exact). -/
 def growCap (c : Nat) : Nat := if c = 0 then 1 else 2 * c
